@@ -330,6 +330,9 @@ def run_insert(ctx, shapes, max_new, deadline, faults=False):
         finals = eng.run(fn, args, env=env, pc=pc, deadline=deadline)
         n_ok = 0
         for f in finals:
+            if time.time() > deadline + 300:
+                results["unknown"].append("post-processing of the enumerated paths: engine deadline reached")
+                break
             results["paths"] += 1
             if f.status in ("unknown", "unwind"):
                 results["unknown"].append(f"{shape.name}: {f.status}: {f.info}")
@@ -767,6 +770,9 @@ def run_delete(ctx, shapes, deadline, faults=False):
         finals = eng.run(fn, args, env=env, pc=pc, deadline=deadline)
         n_ok = 0
         for f in finals:
+            if time.time() > deadline + 300:
+                results["unknown"].append("post-processing of the enumerated paths: engine deadline reached")
+                break
             results["paths"] += 1
             extra = [("set:to_delete", dele), ("split_after", split_after), ("set:overwritten_items", overwritten)]
             if f.status in ("unknown", "unwind"):
@@ -875,6 +881,9 @@ def run_delete_trees(ctx, shapes, deadline):
         finals = eng.run(fn, args, env=env, pc=pc, deadline=deadline)
         n_ok = 0
         for f in finals:
+            if time.time() > deadline + 300:
+                results["unknown"].append("post-processing of the enumerated paths: engine deadline reached")
+                break
             results["paths"] += 1
             extra = [("set:already_deleted_items", gone), ("target_n_trees", target)]
             if f.status in ("unknown", "unwind"):
@@ -974,6 +983,9 @@ def run_make_tree(ctx, max_items, deadline):
         finals = eng.run(fn, args, env=env, pc=pc, deadline=deadline, max_paths=20000)
         n_ok = 0
         for f in finals:
+            if time.time() > deadline + 300:
+                results["unknown"].append("post-processing of the enumerated paths: engine deadline reached")
+                break
             results["paths"] += 1
             extra = [("set:item_set", items), ("split_after", split_after)]
 
@@ -1047,6 +1059,9 @@ def run_random_split(ctx, deadline):
     finals = eng.run(fn, [Ref(Cell(Opaque("rng"))), Ref(Cell(s)), Ref(left), Ref(right)], env=env, pc=pc,
                      deadline=deadline)
     for f in finals:
+        if time.time() > deadline + 300:
+            results["unknown"].append("post-processing of the enumerated paths: engine deadline reached")
+            break
         results["paths"] += 1
         if f.status != "return":
             results["unknown" if f.status in ("unknown", "unwind") else "violations"].append(
@@ -1119,6 +1134,9 @@ def run_split_imbalance(ctx, deadline):
     pc = [z3.ULE(l, BV(255, 64)), z3.ULE(r, BV(255, 64))]
     finals = eng.run(fn, [l, r], env={}, pc=pc, deadline=deadline)
     for f in finals:
+        if time.time() > deadline + 300:
+            results["unknown"].append("post-processing of the enumerated paths: engine deadline reached")
+            break
         res["paths"] += 1
         if f.status != "return":
             (res["unknown"] if f.status in ("unknown", "unwind") else res["violations"]).append(
